@@ -64,6 +64,21 @@ struct failed_struct {
 };
 
 /**
+ * Check if the hash bytes are all 0x00 or all 0xFF, the patterns used for
+ * the INVALID and ZERO special values, whatever the hash size is.
+ */
+static int hash_is_special_pattern(const unsigned char* hash)
+{
+	int i;
+
+	for (i = 1; i < BLOCK_HASH_SIZE; ++i)
+		if (hash[i] != hash[0])
+			return 0;
+
+	return hash[0] == 0x00 || hash[0] == 0xFF;
+}
+
+/**
  * Check if a block hash matches the specified buffer.
  * Return ==0 if equal
  */
@@ -419,7 +434,13 @@ static int repair(struct snapraid_state* state, int rehash, unsigned pos, unsign
 				/* if the hash is invalid we cannot check the result */
 				/* this could happen if we have lost this information */
 				/* after an aborted sync */
-				if (hash_is_invalid(failed[j].block->hash)) {
+				/* note that with a reduced hash size hash_is_invalid() and hash_is_zero() */
+				/* are always false, because a real hash cannot be excluded, but here */
+				/* we have to assume the worst case, and not trust an INVALID or ZERO */
+				/* pattern as if it were the real hash of the past data */
+				if (hash_is_invalid(failed[j].block->hash)
+					|| (BLOCK_HASH_SIZE != HASH_MAX && hash_is_special_pattern(failed[j].block->hash))
+				) {
 					/* it may contain garbage */
 					failed[j].is_outofdate = 1;
 
